@@ -77,6 +77,43 @@ def run(ck, m):
           'an in-place key update is preceded by a flush of the value it points at' if okp else
           'update_key writes the new value address into the key file (unbuffered write_at) while the value bytes are still in the '
           'BufWriter: a crash leaves the key pointing at bytes that were never stored', wb.loc(upd[0]) if upd else '')
+    # appended key records: the key appender is a bounded BufWriter, it writes to the file by itself whenever it fills up; a key
+    # record appended in the loop can therefore reach the file before the value it points at unless the values were flushed first
+    key_appends = []
+    for bi, t in wb.calls():
+        cb_ = P.bodies.get(callee(t))
+        if cb_ is None or is_log(t):
+            continue
+        names = {callee(t2).split('::')[-1] for _, t2 in cb_.calls()} | {callee(t).split('::')[-1]}
+        if 'write_key' in names:
+            key_appends.append(bi)
+    oka = bool(key_appends) and all(any(wb.dominates(v, k) for v in vflush) for k in key_appends)
+    ck.ob('C11.a', fn, 'appended-key-after-value-flush', oka,
+          'a key record is appended only after the value writer was flushed' if oka else
+          'key records are appended to a bounded BufWriter inside the loop (%s) while their values are still buffered: the key writer flushes '
+          'by itself when it fills up, so a kill during the loop leaves key records that point past the end of the value file (the loader '
+          'then yields the key with a value of NUL bytes that was never stored)' % [wb.loc(k) for k in key_appends][:3], wb.loc(key_appends[0]) if key_appends else '')
+    # the relative buffer sizes decide how far the key file can run ahead of the value file
+    caps = {}
+    for hb in P.user_bodies():
+        if not hb.id.startswith('nundb::storage::disk::') or 'append_mode' not in hb.id:
+            continue
+        for bi, t in hb.calls():
+            if callee_decl(t) == 'std::io::BufWriter::with_capacity':
+                vals = _const_eval(hb, t['args'][0])
+                roots = sorted({str(r[:2]) for r in origins(hb, t['args'][0])})
+                caps['values' if 'values' in hb.id else 'keys'] = (vals, roots, hb.loc(bi))
+    if 'values' in caps and 'keys' in caps:
+        (vv, vr, vloc), (kv, kr, kloc) = caps['values'], caps['keys']
+        same_expr = vr == kr
+        numeric = bool(vv) and bool(kv) and all(isinstance(x, int) for x in vv + kv)
+        okc = same_expr or (numeric and max(vv) <= min(kv))
+        ck.ob('C11.a', 'storage::disk', 'value-buffer-not-larger-than-key-buffer', okc,
+              'the value appender buffers no more than the key appender' if okc else
+              'the value appender buffers more (%s at %s) than the key appender (%s at %s): whole batches of key records reach the file while '
+              'all their values are still in memory' % (vv or vr, vloc, kv or kr, kloc), vloc)
+    else:
+        ck.undecided('C11.a', 'storage::disk', 'buffer-sizes', 'capacities of the two appenders not found')
     # ---- (b) / (c) ---------------------------------------------------------------------
     removers = []
     for b in P.user_bodies():
@@ -200,3 +237,35 @@ def run(ck, m):
               'the loader never unwraps a read' if not bad else
               'the loader unwraps %d reads/decodes (%s …): a key file cut short by a crash makes the next start panic instead of '
               'ignoring the torn tail' % (len(bad), '; '.join(bad[:3])), '%s:%s' % (b.file, b.line))
+
+
+
+def _const_eval(b, operand, depth=0):
+    """values of a constant integer expression (literals, *, +, -, casts); [] when not constant"""
+    out = []
+    for r in origins(b, operand):
+        if r[0] == 'const':
+            v = core.const_val(r)
+            if isinstance(v, int) and not isinstance(v, bool):
+                out.append(v)
+            else:
+                return []
+        elif r[0] == 'arith' and depth < 6:
+            rv = b.blocks[r[1]]['s'][r[2]]['r']
+            if rv['k'] != 'bin':
+                return []
+            xs, ys = _const_eval(b, rv['a'], depth + 1), _const_eval(b, rv['b'], depth + 1)
+            if len(xs) != 1 or len(ys) != 1:
+                return []
+            op = rv['op'].replace('WithOverflow', '').replace('Unchecked', '')
+            if op == 'Mul':
+                out.append(xs[0] * ys[0])
+            elif op == 'Add':
+                out.append(xs[0] + ys[0])
+            elif op == 'Sub':
+                out.append(xs[0] - ys[0])
+            else:
+                return []
+        else:
+            return []
+    return out
